@@ -53,7 +53,9 @@ class Spec:
     # judged by the same oracle: both engines are exercised by every property, and a loop that never ends shows up as
     # a deterministic 'linebudget' observation
     py_every = {"quick": 40, "thorough": 8}
-    py_line_budget = 3000000
+    # generous on purpose: the line clock has to tell an endless loop from a long one (a tree-vs-tree query on two
+    # 400-box trees, a support query on a 5000-vertex ring mesh), not to rate performance
+    py_line_budget = 30000000
 
     def wants_py(self, plan):
         n = self.py_every.get(plan.get("tier", "quick"), 0)
@@ -93,6 +95,7 @@ class Spec:
 
 
 class C05(Spec):
+    py_line_budget = 300000000
     rule = ("one run = one seeded history on 1-3 AabbTree objects (insertion batches of seeded sizes/modes/permutations "
             "interleaved with box and tree-tree queries, then a sweep that uses every inserted box as a query); "
             "non-trivial = at least one non-empty insertion followed by at least one judged query on a non-empty tree; "
